@@ -27,6 +27,17 @@ for p in props:
         "level_note": m.get("level_note", "; ".join(c.get("trusted_base", []))),
         "technique": m.get("technique", "Coq 8.16 theorems over a Gallina model + differential correspondence with the Go implementation"),
     })
+# aggregate known findings
+agg = {"findings": [], "fixed": []}
+seen = set()
+for kp in sorted(glob.glob(os.path.join(ROOT, "known_findings.d", "*.json"))):
+    d = json.load(open(kp))
+    for sec in ("findings", "fixed"):
+        for f in d.get(sec, []):
+            k = (sec, f.get("property"), f.get("key"), f.get("commit"))
+            if k not in seen:
+                seen.add(k); agg[sec].append(f)
+json.dump(agg, open(os.path.join(ROOT, "known_findings.json"), "w"), indent=1)
 hooks = json.load(open(os.path.join(ROOT, "MANIFEST.hooks")))
 man = {
     "version": 1,
